@@ -129,8 +129,24 @@ func (c *Ctl) NInjected() int { c.mu.Lock(); defer c.mu.Unlock(); return c.Injec
 // NCommits returns the number of successful commits.
 func (c *Ctl) NCommits() int { c.mu.Lock(); defer c.mu.Unlock(); return c.Commits }
 
-// Crashed reports whether the crash point has been reached.
-func (c *Ctl) Crashed() bool { c.mu.Lock(); defer c.mu.Unlock(); return c.crashed }
+// Defuse removes a crash point that has not been reached; false = it has been reached already.
+func (c *Ctl) Defuse() bool {
+	c.mu.Lock()
+	defer c.mu.Unlock()
+	c.CrashAfter = 0
+	return !c.crashed
+}
+
+// Crashed reports whether the crash point has been reached AND OnCrash has completed (the
+// database handle is closed, the directory may be reopened).
+func (c *Ctl) Crashed() bool {
+	select {
+	case <-c.CrashedCh:
+		return true
+	default:
+		return false
+	}
+}
 
 // callSite names the innermost function outside this package and outside masswallet/db (View,
 // Update and the bucket helpers) on the stack: the wallet function that made the database call.
